@@ -45,8 +45,8 @@ Definition mirror_of (ty : N) (data : list N) : option (N * list N) :=
     if negb (mnum mod 8 =? 0) || (size <? 8) || (128 <? size) || negb (size mod 8 =? 0) then None
     else Some (MSG_BM_MIRROR_MULTIPLE, [mnum; size] ++ firstn (N.to_nat (size / 8)) (skipn 2 data))
   else if ty =? MSG_BM_POSITION then
-    (* bidib_send_msg_bm_mirror_position takes three bytes only: address low/high and type *)
-    Some (MSG_BM_MIRROR_POSITION, [nth 0 data 0; nth 1 data 0; nth 2 data 0])
+    (* bidib_send_msg_bm_mirror_position: decoder address low/high, type, location low/high *)
+    Some (MSG_BM_MIRROR_POSITION, [nth 0 data 0; nth 1 data 0; nth 2 data 0; nth 3 data 0; nth 4 data 0])
   else None.
 
 (* what the specification asks the mirror to carry: the same detector number and payload *)
